@@ -427,6 +427,7 @@ func c32walk(r *vrun.Run, maxVisits int, visit func(tr *c32Trans)) *c32Stats {
 				st.ParamKinds[c32kindOf(mt.In(i), mt.IsVariadic() && i == mt.NumIn()-1)]++
 			}
 			expanded := false
+			var cf0 uint16
 			for ci, args := range combos {
 				v, pv := c32replay(it.path)
 				if pv != nil {
@@ -448,8 +449,20 @@ func c32walk(r *vrun.Run, maxVisits int, visit func(tr *c32Trans)) *c32Stats {
 					st.Terminals++
 				}
 				visit(tr)
-				if isTerm || expanded {
+				if isTerm {
 					continue
+				}
+				if expanded {
+					// The other value classes continue the search only when they leave the step with different tags than
+					// the ordinary class did (a tag that depends on an argument value, e.g. BLOCK 0 = block for ever):
+					// the terminals behind them are then judged like any other. A negative BLOCK timeout is not a
+					// command the server accepts, so nothing is demanded of it.
+					if tr.After.Cf == cf0 || c32negBlock(step) {
+						continue
+					}
+				}
+				if !expanded {
+					cf0 = tr.After.Cf
 				}
 				// successor state
 				nt := ot.Name()
@@ -719,6 +732,18 @@ func c32keys(m map[string]bool) string {
 	return strings.Join(ks, ", ")
 }
 
+func c32negBlock(s c32Step) bool {
+	if s.M != "Block" {
+		return false
+	}
+	for _, a := range s.A {
+		if (a.K == "i" || a.K == "d" || a.K == "f") && len(a.V) > 0 && strings.HasPrefix(a.V[0], "-") {
+			return true
+		}
+	}
+	return false
+}
+
 func c32viaBlock(p c32Path, s c32Step) bool {
 	for _, st := range p.Steps {
 		if st.M == "Block" {
@@ -730,7 +755,7 @@ func c32viaBlock(p c32Path, s c32Step) bool {
 
 func TestVerif_C32(t *testing.T) {
 	vrun.Main(t, "C32", func(r *vrun.Run) {
-		r.Rule = "BFS by reflection over the builder type graph from every exported method of cmds.Builder (InitSlot and NoSlot builders); every exported method of every reachable step type is invoked with every canned value class of each parameter type; states deduplicated by (builder kind, type, flag word, slot word, #previous visits of the type on the path, which of the semantic options Block/Store/Storedist the path went through), a type may repeat at most maxVisits times on a path; each Build()/Cache() terminal is compared with a hand written classification (known reads / known writes / blocking / subscribe / unsubscribe) keyed by command name. non-trivial = terminals of read-only, blocking or pub/sub commands (distinct by command and terminal type)"
+		r.Rule = "BFS by reflection over the builder type graph from every exported method of cmds.Builder (InitSlot and NoSlot builders); every exported method of every reachable step type is invoked with every canned value class of each parameter type; states deduplicated by (builder kind, type, flag word, slot word, #previous visits of the type on the path, which of the semantic options Block/Store/Storedist the path went through), a type may repeat at most maxVisits times on a path; a non-ordinary value class continues the search too when it leaves the step with different tags than the ordinary class (value-dependent tags, e.g. BLOCK 0); each Build()/Cache() terminal is compared with a hand written classification (known reads / known writes / blocking / subscribe / unsubscribe) keyed by command name. non-trivial = terminals of read-only, blocking or pub/sub commands (distinct by command and terminal type)"
 		maxVisits := vrun.Pick(r, 2, 3)
 		r.Bounds["max_visits_of_a_type_per_path"] = maxVisits
 		r.Assume("the classification table in this file (written from the Redis/Valkey/Redis-Stack command reference) is right for the commands it lists; commands it does not list are unclassified and never alarm")
